@@ -1,7 +1,17 @@
-(* C01 -- property theorems only: each is closed by [exact] of a lemma proved elsewhere. *)
+(* C01 -- Message serialisation round-trips exactly and its size is exact.
+   Property theorems only: each is closed by [exact] of a lemma proved under Msg/. *)
 From Coq Require Import List NArith.
-From Muscle Require Import Msg.MsgDefs Msg.MsgModel Msg.MsgApi Msg.MsgProofs.
+From Muscle Require Import Msg.MsgDefs Msg.MsgModel Msg.MsgApi Msg.MsgBytesProofs Msg.MsgSizeProofs Msg.MsgRoundTrip.
+Local Open Scope N_scope.
 
-Theorem C01_len_app : forall (a b : bytes), len (a ++ b) = (len a + len b)%N.
-Proof. exact (@len_app _). Qed.
-Print Assumptions C01_len_app.
+(* the advertised flattened size is the number of bytes written, for every well-formed Message *)
+Theorem C01_flatten_length : forall m : msg, wf_msg m -> len (flatten m) = flattened_size m.
+Proof. exact flatten_length. Qed.
+Print Assumptions C01_flatten_length.
+
+(* parsing the serialised bytes yields the original Message: non-flattenable fields dropped (strip), one-item
+   arrays returned as inline items (norm), everything else -- what-code, field order, names, type codes, item
+   counts, item bytes at every nesting level -- identical *)
+Theorem C01_unflatten_flatten : forall m : msg, wf m -> unflatten (flatten m) = Ok (rt m).
+Proof. exact unflatten_flatten. Qed.
+Print Assumptions C01_unflatten_flatten.
